@@ -27,9 +27,9 @@ import (
 type sPoint struct {
 	Type   string `json:"type"`
 	Key    string `json:"key"`
-	Time   int64  `json:"time"`  // ns since epoch
+	Time   int64  `json:"time"`          // ns since epoch
 	Far    int64  `json:"far,omitempty"` // seconds added to Time: instants that do not fit 64-bit nanoseconds
-	VBits  uint64 `json:"vbits"` // float64 bit pattern
+	VBits  uint64 `json:"vbits"`         // float64 bit pattern
 	Text   string `json:"text"`
 	Data   []byte `json:"data"`
 	Tomb   int    `json:"tomb"`
@@ -108,10 +108,10 @@ type sStep struct {
 }
 
 type sScript struct {
-	ID    int      `json:"id"`
-	Kind  string   `json:"kind"`
-	Nodes []string `json:"nodes"` // ids to dump besides the root
-	Ops   []sOp    `json:"ops"`
+	ID    int            `json:"id"`
+	Kind  string         `json:"kind"`
+	Nodes []string       `json:"nodes"` // ids to dump besides the root
+	Ops   []sOp          `json:"ops"`
 	Kinds map[string]int `json:"kinds,omitempty"` // what the generator meant each request to be (input distribution only)
 	// observations
 	Root0   string  `json:"root0"`
